@@ -1880,6 +1880,7 @@ class DynamicSeedingInstrumentation(transformer.DynamicSeedingInstrumentationAda
             isinstance(maybe_string_func, Instr)
             and (method_name := self.extract_method_name(maybe_string_func)) is not None
             and method_name in DynamicConstantProvider.STRING_FUNCTION_LOOKUP
+            and self._is_call_with(node, maybe_string_func_index + 1, 0)
         ):
             self.visit_string_function_without_arg(
                 ast_info,
@@ -1897,6 +1898,7 @@ class DynamicSeedingInstrumentation(transformer.DynamicSeedingInstrumentationAda
         if (
             isinstance(maybe_string_func_with_arg, Instr)
             and (method_name := self.extract_method_name(maybe_string_func_with_arg)) is not None
+            and self._is_call_with(node, maybe_string_func_with_arg_index + 2, 1)
         ):
             match method_name:
                 case "startswith":
@@ -1917,6 +1919,30 @@ class DynamicSeedingInstrumentation(transformer.DynamicSeedingInstrumentationAda
                         maybe_string_func_with_arg,
                         maybe_string_func_with_arg_index,
                     )
+
+    @staticmethod
+    def _is_call_with(node: cf.BasicBlockNode, instr_index: int, arguments: int) -> bool:
+        """Check that the instruction at the given index calls with the given number of arguments.
+
+        The positions of the string functions only identify the method that is loaded. The
+        instrumentation is inserted in front of the call and copies the receiver (and the
+        argument) from the stack, so the call must really be there, e.g., the statement
+        `s.startswith()` at the end of a basic block loads the method at the same position.
+
+        Args:
+            node: The node in the control flow graph.
+            instr_index: The index of the expected call instruction, counted from the end.
+            arguments: The expected number of arguments of the call.
+
+        Returns:
+            True if it is such a call, False otherwise.
+        """
+        call = node.try_get_instruction(instr_index)
+        return (
+            call is not None
+            and call.name in {"CALL", "PRECALL", "CALL_METHOD"}
+            and call.arg == arguments
+        )
 
     def visit_compare_op(  # noqa: D102, PLR0917
         self,
